@@ -48,6 +48,8 @@ class C12(SchedProp):
                         if ok:
                             free.append(ch[0]["name"])
                             kinds = ("slots" if any(l["cap"] is None for l in ch) else "hw") + ("-stacked" if len(ch) > 1 else "")
+                            if len(ch) == 1 and loc_class(case, ch[0]["name"]) != "outer":
+                                kinds += "-wrapped-host"      # requested directly on a location that other locations wrap
                     if len(free) >= t["n"]:
                         return ("waiting-while-free@" + kinds, f"at the quiescent point after op #{i} {st['op']} the request of {job} on "
                                                       f"{tkey} ({t['n']} location(s)) is still waiting although {free} have enough "
